@@ -54,18 +54,22 @@ def accept_predicate(ctx, pstate):
     res = pstate.methods.get('result')
     if res is None:
         raise AnalysisError('parse state has no result accessor')
-    en = Enumerator(prog, res, handler_paths=False)
+    from ..dte import inline_helpers
+    en = Enumerator(prog, res, handler_paths=True, max_depth=4,
+                    inline=inline_helpers(prog, modules={PARSER}))
     paths = en.run()
     rows = []
     for p in paths:
         conds = []
         for c in p.conds:
+            if c.kind == 'exc':
+                continue        # a handler path: tried after the normal rows
             if c.kind != 'test':
                 raise AnalysisError('loop in result accessor')
             conds.append((c.expr, c.pol))
         if p.outcome.kind == 'return':
-            ok = p.outcome.expr is not None and U(p.outcome.expr) in (
-                'self.values[0]', 'self.values[-1]')
+            ok = p.outcome.expr is not None and U(en.expand(
+                p.outcome.expr)) in ('self.values[0]', 'self.values[-1]')
             rows.append((conds, 'accept' if ok else 'other:' + U(
                 p.outcome.expr) if p.outcome.expr is not None else 'none'))
         elif p.outcome.kind == 'raise':
@@ -357,6 +361,26 @@ def check_driver(ctx, pstate, table):
     inner = [n for n in dec.node.body if isinstance(n, ast.FunctionDef)]
     ok = False
     detail = 'decorator shape not recognised'
+    regattr = None
+
+    def reg_attr_of(recv, fparam):
+        """the attribute of the decorated function a receiver denotes:
+        func.A / vars(func).setdefault('A', []) / func.__dict__.setdefault /
+        getattr(func, 'A'[, default])"""
+        if isinstance(recv, ast.Attribute) and isinstance(
+                recv.value, ast.Name) and recv.value.id == fparam:
+            return recv.attr
+        if isinstance(recv, ast.Call):
+            mc = method_call(recv, 'setdefault')
+            if mc and len(recv.args) == 2 and is_const(recv.args[0]) and \
+                    isinstance(recv.args[1], ast.List) and \
+                    not recv.args[1].elts and U(mc[0]) in (
+                        'vars(%s)' % fparam, '%s.__dict__' % fparam):
+                return recv.args[0].value
+            if U(recv.func) == 'getattr' and len(recv.args) >= 2 and U(
+                    recv.args[0]) == fparam and is_const(recv.args[1]):
+                return recv.args[1].value
+        return None
     if len(inner) == 1 and dec.node.args.vararg is not None:
         va = dec.node.args.vararg.arg
         fn = inner[0]
@@ -365,10 +389,7 @@ def check_driver(ctx, pstate, table):
                    and isinstance(c.func, ast.Attribute)
                    and c.func.attr == 'append']
         rets = [r for r in ast.walk(fn) if isinstance(r, ast.Return)]
-        good_app = [c for c in appends if isinstance(c.func.value,
-                                                     ast.Attribute)
-                    and isinstance(c.func.value.value, ast.Name)
-                    and c.func.value.value.id == fparam
+        good_app = [c for c in appends if reg_attr_of(c.func.value, fparam)
                     and len(c.args) == 1 and U(c.args[0]) in (
                         'list(%s)' % va, va, 'tuple(%s)' % va,
                         '[*%s]' % va)]
@@ -376,9 +397,9 @@ def check_driver(ctx, pstate, table):
                 isinstance(r.value, ast.Name) and r.value.id == fparam
                 for r in rets):
             ok = True
+            regattr = reg_attr_of(good_app[0].func.value, fparam)
             detail = 'appends the token sequence to func.%s and returns ' \
-                     'func' % good_app[0].func.value.attr
-            regattr = good_app[0].func.value.attr
+                     'func' % regattr
     ctx.ob('C01.D0', ok, W(dec.node), dec.qual, 'reducer decorator', detail)
     if not ok:
         raise AnalysisError('reducer decorator not recognised: table '
@@ -394,44 +415,61 @@ def check_driver(ctx, pstate, table):
     if mnew is None:
         raise AnalysisError('metaclass has no __new__')
     sens = _suffix_sensitive(table)
-    loops = [n for n in walk_no_nested(mnew.node) if isinstance(n, ast.For)]
     ok = False
     detail = 'metaclass registration loop not recognised'
     table_attr = None
-    if len(loops) == 2:
-        outer, inner_l = loops[0], loops[1]
-        if outer.lineno > inner_l.lineno:
-            outer, inner_l = inner_l, outer
-        oi = U(outer.iter)
+    # the table is stored under a constant key of the class dict; it is
+    # built by two nested iterations (loops or one comprehension)
+    stores = [s_ for s_ in ast.walk(mnew.node) if isinstance(s_, ast.Assign)
+              and isinstance(s_.targets[0], ast.Subscript)
+              and is_const(s_.targets[0].slice)]
+    gens = elt = None
+    if stores:
+        table_attr = stores[0].targets[0].slice.value
+        v = stores[0].value
+        if isinstance(v, ast.ListComp) and len(v.generators) == 2 and \
+                not any(g.ifs for g in v.generators):
+            gens = [(g.target, g.iter) for g in v.generators]
+            elt = v.elt
+        elif isinstance(v, ast.Name):
+            loops = [n for n in walk_no_nested(mnew.node)
+                     if isinstance(n, ast.For)]
+            if len(loops) == 2:
+                outer, inner_l = sorted(loops, key=lambda n: n.lineno)
+                apps = [c for c in ast.walk(inner_l)
+                        if isinstance(c, ast.Call) and method_call(
+                            c, 'append') and len(c.args) == 1
+                        and U(method_call(c)[0]) == v.id]
+                if len(apps) == 1 and any(inner_l is x
+                                          for x in ast.walk(outer)):
+                    gens = [(outer.target, outer.iter),
+                            (inner_l.target, inner_l.iter)]
+                    elt = apps[0].args[0]
+    if gens is not None and isinstance(gens[0][0], ast.Tuple) and len(
+            gens[0][0].elts) == 2 and isinstance(elt, ast.Tuple) and len(
+                elt.elts) == 2:
+        oi = U(gens[0][1])
         ordered = oi.endswith('.items()') and not oi.startswith(
             ('sorted', 'reversed'))
-        ii = U(inner_l.iter)
-        in_ok = ii.endswith('.' + regattr) and not ii.startswith(
-            ('sorted', 'reversed'))
-        apps = [c for c in ast.walk(inner_l) if isinstance(c, ast.Call)
-                and isinstance(c.func, ast.Attribute)
-                and c.func.attr == 'append' and len(c.args) == 1
-                and isinstance(c.args[0], ast.Tuple)
-                and len(c.args[0].elts) == 2]
-        stores = [s for s in ast.walk(mnew.node) if isinstance(s, ast.Assign)
-                  and isinstance(s.targets[0], ast.Subscript)
-                  and is_const(s.targets[0].slice)]
-        if apps and stores and isinstance(outer.target, ast.Tuple):
-            keyname = U(outer.target.elts[0])
-            red = U(inner_l.target)
-            a0 = apps[0].args[0]
-            shape = (U(a0.elts[0]) == red and U(a0.elts[1]) == keyname)
-            table_attr = stores[0].targets[0].slice.value
-            same_list = U(stores[0].value) == U(apps[0].func.value)
-            if shape and same_list and in_ok and (ordered or not sens):
-                ok = True
-                detail = 'registers (pattern, method-name) pairs under ' \
-                         '%r in class-body order' % table_attr
-            elif not shape:
-                detail = 'registered pair is not (pattern, method name)'
-            elif not ordered and sens:
-                detail = 'registration order is not class-body order ' \
-                         'although patterns %s overlap' % (sens[:2],)
+        keyname = U(gens[0][0].elts[0])
+        valname = U(gens[0][0].elts[1])
+        red = U(gens[1][0])
+        it2 = gens[1][1]
+        ii = U(it2)
+        in_ok = (ii == '%s.%s' % (valname, regattr)) or (
+            isinstance(it2, ast.Call) and U(it2.func) == 'getattr'
+            and len(it2.args) >= 2 and U(it2.args[0]) == valname
+            and is_const(it2.args[1], regattr))
+        shape = U(elt.elts[0]) == red and U(elt.elts[1]) == keyname
+        if shape and in_ok and (ordered or not sens):
+            ok = True
+            detail = 'registers (pattern, method-name) pairs under ' \
+                     '%r in class-body order' % table_attr
+        elif not shape:
+            detail = 'registered pair is not (pattern, method name)'
+        elif not ordered and sens:
+            detail = 'registration order is not class-body order ' \
+                     'although patterns %s overlap' % (sens[:2],)
     ctx.ob('C01.D0', ok, W(mnew.node), mnew.qual, 'metaclass registration',
            detail)
     if not ok and table_attr is None:
@@ -484,21 +522,38 @@ def check_driver(ctx, pstate, table):
     ctx.floor('C01.D1', npairs, 3, 'parallel stack mutation blocks')
 
     # --- D2/D5: the reduce step
-    red = None
+    loop_fn = None
     for f in pstate.methods.values():
         for n in ast.walk(f.node):
-            if isinstance(n, ast.For) and U(n.iter) == 'self.%s' % table_attr:
-                red = (f, n)
-    if red is None:
+            if isinstance(n, (ast.For, ast.comprehension)) and U(
+                    n.iter) == 'self.%s' % table_attr:
+                loop_fn = (f, n)
+    if loop_fn is None:
         raise AnalysisError('reduce step (loop over the reducer table) not '
                             'found')
-    rf, rloop = red
+    rloop = loop_fn[1]
     if not (isinstance(rloop.target, ast.Tuple) and len(
             rloop.target.elts) == 2):
         raise AnalysisError('reduce loop does not unpack (pattern, method)')
-    pat_var = U(rloop.target.elts[0])
-    meth_var = U(rloop.target.elts[1])
-    en = Enumerator(prog, rf, handler_paths=False)
+    if not hasattr(rloop, 'lineno'):
+        rloop.lineno = rloop.target.lineno
+        rloop.col_offset = rloop.target.col_offset
+    # the reduce entry: the parse-state method shift() calls from which the
+    # table loop is reached (helpers of the class are inlined into it)
+    sh0 = pstate.methods.get('shift')
+    if sh0 is None:
+        raise AnalysisError('anchor vanished: shift')
+    rf = None
+    for call, g in prog.callees(sh0):
+        if isinstance(call, ast.Call) and g.cls is pstate and (
+                g is loop_fn[0] or loop_fn[0].qual in prog.region(g)):
+            rf = g
+    if rf is None:
+        rf = loop_fn[0]
+    from ..dte import inline_helpers
+    en = Enumerator(prog, rf, handler_paths=False, max_depth=4,
+                    inline=inline_helpers(prog, modules={PARSER},
+                                          exclude={rf.qual}))
     paths = en.run()
     hit = 0
     for p in paths:
@@ -546,7 +601,12 @@ def check_driver(ctx, pstate, table):
         mcall = None
         for e in calls:
             cn = e.node
-            if cn.args and isinstance(cn.args[0], ast.Starred):
+            if cn.args and isinstance(cn.args[0], ast.Starred) and (
+                    mcall is None or U(en.expand(cn.func)).startswith(
+                        'getattr(')):
+                if mcall is not None and U(en.expand(
+                        mcall.node.func)).startswith('getattr('):
+                    continue
                 mcall = e
         if mcall is None:
             ctx.ob('C01.D2', False, W(rloop), rf.qual, 'reducer call',
@@ -580,12 +640,35 @@ def check_driver(ctx, pstate, table):
             sw = _last_window(e.node)
             v = en.expand(e.value)
             slot_ok = False
+            while isinstance(v, ast.Call) and U(v.func) in (
+                    'list', 'tuple') and len(v.args) == 1:
+                v = v.args[0]
+            if isinstance(v, ast.IfExp) and isinstance(
+                    v.orelse, (ast.Tuple, ast.List)) and not v.orelse.elts:
+                v = v.body          # `... if results else ()`
             if isinstance(v, (ast.ListComp, ast.GeneratorExp)) and len(
-                    v.generators) == 1 and isinstance(
-                        v.elt, ast.Subscript) and is_const(
-                            v.elt.slice, slot) and U(v.elt.value) == U(
-                                v.generators[0].target):
-                slot_ok = True
+                    v.generators) == 1 and not v.generators[0].ifs:
+                g0 = v.generators[0]
+                if isinstance(v.elt, ast.Subscript) and is_const(
+                        v.elt.slice, slot) and U(v.elt.value) == U(
+                            g0.target):
+                    slot_ok = True          # [r[slot] for r in results]
+                if isinstance(g0.target, ast.Tuple) and len(
+                        g0.target.elts) == 2 and U(v.elt) == U(
+                            g0.target.elts[slot]):
+                    slot_ok = True          # [a for a, b in results]
+            if isinstance(v, (ast.Tuple, ast.List)) and not v.elts and \
+                    mcall is not None and mcall.sym and any(
+                        c.kind == 'test' and not c.pol and isinstance(
+                            c.expr, ast.Name) and c.expr.id == mcall.sym
+                        for c in p.conds):
+                slot_ok = True              # no results: the window goes
+            if isinstance(v, ast.Subscript) and is_const(v.slice, slot) and \
+                    isinstance(v.value, ast.Call) and U(
+                        v.value.func) == 'zip' and len(
+                            v.value.args) == 1 and isinstance(
+                                v.value.args[0], ast.Starred):
+                slot_ok = True              # zip(*results)[slot]
             ok = bool(sw) and is_pat(sw[1]) and slot_ok
             ctx.ob('C01.D2', ok, W(e.raw) if e.raw is not None and hasattr(
                 e.raw, 'lineno') else W(rloop), rf.qual,
@@ -604,12 +687,11 @@ def check_driver(ctx, pstate, table):
             if e.kind == 'call' and e.line > stores[-1].line and \
                     prog.callee_of(rf, e.node) is rf:
                 again = True
-        pm = parent_map(rf.node)
-        anc = pm.get(rloop)
-        while anc is not None and anc is not rf.node:
-            if isinstance(anc, ast.While):
+        # ... or the reduction sits in a `while` whose body completed
+        for e in p.events:
+            if e.kind == 'loopdone' and e.sym == 'while' and \
+                    e.line <= stores[-1].line:
                 again = True
-            anc = pm.get(anc)
         ctx.ob('C01.D5', again, W(rloop), rf.qual, 'fixpoint after reduction',
                'the reduce step runs again after a successful reduction'
                if again else 'after a reduction the reduce step is not run '
@@ -869,7 +951,10 @@ def check_eval(ctx, classes):
                    detail, why, (cc.call_info or {}).get('why', '')))
     # the adapter returns the call result unchanged
     chk = prog.func(CHECKS + '._check')
-    en = Enumerator(prog, chk, handler_paths=False)
+    from ..dte import inline_helpers
+    en = Enumerator(prog, chk, handler_paths=False, max_depth=4,
+                    inline=inline_helpers(prog, modules={CHECKS},
+                                          classes=False))
     for p in en.run():
         ok = False
         if p.outcome.kind == 'return' and p.outcome.expr is not None:
